@@ -250,4 +250,45 @@ theorem get_ofPairs [Inhabited β] (f : Nat → β) (l : List (Nat × Nat)) {k :
   have := rows2_getD (l.map fun p => (f p.1, f p.2)) default k (by simpa using hk)
   simpa [ofPairs] using this
 
+/-! ### extension 2: read-only slices of embedded masks (additive) -/
+
+/-- `mask_2d[lo:hi, x]` on the embedded mask: the model's bits of column `x`, rows `lo … hi-1` -/
+theorem colSlice_ofMask (m : Mask) (wf : m.WF) {lo hi x : Nat} (hhi : hi ≤ m.h) (hx : x < m.w) :
+    A2.colSlice (ofMask m) (lo : Int) (hi : Int) (x : Int)
+      = (List.range (hi - lo)).map fun k => m.get (lo + k) x := by
+  rw [A2.colSlice_natCast _ _ _ _ (by simpa using hx)]
+  simp only [ofMask_h, ofMask_w, ofMask_data, Nat.min_eq_left hhi]
+  rcases Nat.lt_or_ge lo hi with hlt | hge
+  · rw [Nat.min_eq_left (by omega : lo ≤ m.h)]
+    apply List.map_congr_left
+    intro k hk
+    have hk' : k < hi - lo := by simpa using hk
+    have hlt' : (lo + k) * m.w + x < m.bits.length := by
+      rw [wf]; exact flat_lt_of_lt (by omega) hx
+    simp [Mask.get, List.getD_eq_getElem?_getD, List.getElem?_eq_getElem hlt']
+  · have h1 : hi - lo = 0 := by omega
+    have h2 : hi - min lo m.h = 0 := by
+      rcases Nat.le_total lo m.h with h | h
+      · rw [Nat.min_eq_left h]; omega
+      · rw [Nat.min_eq_right h]; omega
+    simp [h1, h2]
+
+/-- `mask_2d[y, lo:hi]` on the embedded mask: the model's bits of row `y`, columns `lo … hi-1` -/
+theorem rowSlice_ofMask (m : Mask) (wf : m.WF) {y lo hi : Nat} (hy : y < m.h) (hhi : hi ≤ m.w) :
+    A2.rowSlice (ofMask m) (y : Int) (lo : Int) (hi : Int)
+      = (List.range (hi - lo)).map fun k => m.get y (lo + k) := by
+  rw [A2.rowSlice_natCast, A2.row_natCast _ _ (by simpa using hy)]
+  simp only [ofMask_w, ofMask_data]
+  apply List.ext_getElem
+  · have hlen : y * m.w + m.w ≤ m.bits.length := by
+      rw [wf]
+      calc y * m.w + m.w = (y + 1) * m.w := by rw [Nat.succ_mul]
+        _ ≤ m.h * m.w := Nat.mul_le_mul_right _ hy
+    simp; omega
+  · intro k h1 h2
+    have hk : k < hi - lo := by simpa using h2
+    have hlt : y * m.w + (lo + k) < m.bits.length := by
+      rw [wf]; exact flat_lt_of_lt hy (by omega)
+    simp [Mask.get, List.getD_eq_getElem?_getD, List.getElem?_eq_getElem hlt]
+
 end TieCore
